@@ -512,14 +512,14 @@ def check_view(rep, spec, o, notes=None):
 
 INDEX_DESC = ("complete product: every class with __getitem__/__len__ (EncodedSequence x 3 dispatcher arms, CountMatrix, "
               "WeightMatrix, ScoringMatrix {fresh, used for scoring}, StripedScores x 3 arms x {fresh sequence, sequence already "
-              "widened by a 33-wide motif}) x DNA/protein x sequence lengths %s x motif widths %s (0 = empty matrix) x EVERY "
+              "widened by a 33-wide motif, sequence scored with a 2-wide / 2- then 5-wide motif before (look-ahead rows grow)}) x DNA/protein x sequence lengths %s x motif widths %s (0 = empty matrix) x EVERY "
               "integer index in [-len-2, len+1] and +-2**62, +-2**63, -2**63-1; plus len() and list(obj) per object. "
               "One evaluation = one obj[i] / len / list call compared with the model element or IndexError; "
               "state = one object, transition = one call.")
 VIEW_DESC = ("complete product: memoryview(obj) of every buffer-exporting class on freshly built objects - EncodedSequence "
              "(lengths %s x 3 arms), StripedSequence (same, no look-ahead rows yet), ScoringMatrix and ScoreDistribution "
              "(widths %s; 0 = empty ScoringMatrix; no distribution is requested from an empty matrix), StripedScores (every length x "
-             "width x 3 arms; cells of positions >= len stand for no logical element and only have to lie inside the object) - x DNA/protein; "
+             "width x 3 arms x {fresh sequence object, object scored before with narrower motifs (2; 2 then 5), a wider one (33), a copy}; cells of positions >= len stand for no logical element and only have to lie inside the object) - x DNA/protein; "
              "CountMatrix / WeightMatrix probed (no buffer support = nothing to check). One evaluation = one view: "
              "format/itemsize/ndim/shape/strides recorded and EVERY exposed cell compared with the logical element it stands "
              "for; cells whose offset lies outside the object's memory are counted, not read.")
@@ -555,6 +555,13 @@ def space_index(ctx, rep):
                     specs.append({"cls": "StripedScores", "protein": protein, "L": L, "M": M, "arm": arm})
                     specs.append({"cls": "StripedScores", "protein": protein, "L": L, "M": M, "arm": arm,
                                   "history": [["calc", 33]]})
+                    # the SAME sequence object scored with a NARROWER motif first (its look-ahead rows then grow)
+                    if M > 2:
+                        specs.append({"cls": "StripedScores", "protein": protein, "L": L, "M": M, "arm": arm,
+                                      "history": [["calc", 2]]})
+                    if M > 5:
+                        specs.append({"cls": "StripedScores", "protein": protein, "L": L, "M": M, "arm": arm,
+                                      "history": [["calc", 2], ["calc", 5]]})
     for k, spec in enumerate(specs):
         if not ctx.mine(k):
             continue
@@ -605,6 +612,10 @@ def space_view_fresh(ctx, rep):
             for M in widths(ctx):
                 for arm in ARMS:
                     specs.append({"cls": "StripedScores", "protein": protein, "L": L, "M": M, "arm": arm})
+                    # scores of a sequence object that was scored with narrower / wider motifs before
+                    for hist in ([["calc", 2]], [["calc", 2], ["calc", 5]], [["calc", 33]], [["calc", 5], ["copy"]]):
+                        if hist[-1][0] == "copy" or hist[-1][1] != M:
+                            specs.append({"cls": "StripedScores", "protein": protein, "L": L, "M": M, "arm": arm, "history": hist})
     nobuf = set()
     metas = {}
     nbytes_noted = set()
